@@ -53,4 +53,11 @@ def WellFormed (bz : Bytes) : Prop := ∃ k ∈ Kind.all, bz.head? = some k.byte
 
 instance (bz : Bytes) : Decidable (WellFormed bz) := by unfold WellFormed; infer_instance
 
+/-- a human readable part `Encode` writes unchanged and `Decode` accepts: not empty, printable
+ASCII (33..126), no upper-case letter -/
+def HrpOK (hrp : List Char) : Prop :=
+  hrp ≠ [] ∧ ∀ c ∈ hrp, 33 ≤ c.toNat ∧ c.toNat ≤ 126 ∧ isUpperAscii c = false
+
+instance (hrp : List Char) : Decidable (HrpOK hrp) := by unfold HrpOK; infer_instance
+
 end PvModel.MdAddr
